@@ -18,6 +18,7 @@ import sys
 
 LOG = []
 MARKS = []
+PROBES = []  # per dump (ref) / once after loading (resume): answers of all potential objects at fixed separations
 HEAP = []  # per dump: (entries in the C heap, cached allocation in bytes); for a resume: the same after loading
 STATE = {"depth": 0, "dump_dir": None, "ndumps": 0, "current": None}
 
@@ -40,6 +41,44 @@ def _heap_info(mediator):
         return [len(sch.__getstate__()["heap_entries"]), sch._allocated_memory_bytes]
     except Exception:
         return None
+
+
+def _potential_probe(mediator):
+    """What every potential object of every event handler answers at a few fixed separations (hex floats): the objects
+    restored from a dump must answer bit for bit what the dumped ones answered (deep-copied C objects vs objects rebuilt
+    from their parameters)."""
+    out = []
+    try:
+        handlers = mediator._activator.get_event_handlers()
+    except Exception:
+        return out
+    import jellyfysh.setting as setting
+    dim = setting.dimension
+    L = [setting.system_lengths[d] if hasattr(setting, "system_lengths") and setting.system_lengths else 1.0
+         for d in range(dim)]
+    seps = [[0.21 * L[d] * (1 if d % 2 == 0 else -1) + 0.03 * d * L[d] for d in range(dim)],
+            [0.43 * L[d] * (-1 if d == 0 else 1) - 0.07 * d * L[d] for d in range(dim)]]
+    for idx, h in enumerate(handlers):
+        for attr in ("_potential", "_bounding_potential"):
+            pot = getattr(h, attr, None)
+            if pot is None or not hasattr(pot, "derivative"):
+                continue
+            vals = []
+            for sep in seps:
+                for d in range(dim):
+                    vel = [0.0] * dim
+                    vel[d] = 1.0
+                    try:
+                        nch = getattr(pot, "number_charge_arguments", 0)
+                        nsep = getattr(pot, "number_separation_arguments", 1)
+                        if nsep != 1:
+                            continue
+                        v = pot.derivative(vel, list(sep), *([1.0] * nch))
+                        vals.append(float(v).hex())
+                    except Exception:
+                        vals.append("exc")
+            out.append([idx, type(h).__name__, attr, vals])
+    return out
 
 
 def install_patches():
@@ -83,6 +122,7 @@ def install_patches():
                 shutil.copy(target._output_filename, os.path.join(STATE["dump_dir"], "dump_%d.dat" % STATE["ndumps"]))
             MARKS.append(len(LOG))
             HEAP.append(_heap_info(args[0]) if args else None)
+            PROBES.append(_potential_probe(args[0]) if args else None)
             STATE["ndumps"] += 1
         else:
             if args and isinstance(args[0], (list, tuple)):
@@ -202,6 +242,7 @@ def main(argv):
                 med, dsetting, duuid, rstate = dill.load(f)
             med.update_logging()
             HEAP.append(_heap_info(med))
+            PROBES.append(_potential_probe(med))
             setting.__dict__.update(dsetting.__dict__)
             uuid.__dict__.update(duuid.__dict__)
             random.setstate(rstate)
@@ -216,6 +257,7 @@ def main(argv):
     result["log"] = LOG
     result["marks"] = MARKS
     result["heap"] = HEAP
+    result["probes"] = PROBES
     with open(job["out"], "w") as f:
         json.dump(result, f)
 
